@@ -111,6 +111,10 @@ class SerialFrame(ICommFrame):
         if hdr.err is not EParseError.NOERR:
             return DParseFrame(err=hdr.err)
 
+        # declared length must cover hdr + footer and fit in supplied data
+        if hdr.flen < self.hdr_len + self.foot_len or hdr.flen > len(data):
+            return DParseFrame(err=EParseError.FOOT)
+
         if self.foot_validate(data[: hdr.flen]) is False:
             return DParseFrame(err=EParseError.FOOT)
 
